@@ -11,7 +11,7 @@ import Py4hwV.Props.C06
 
   Headline theorems (all in namespace C15; the ones not stated here live in the Proofs files):
     wavedrom_roundtrip, wavedrom_roundtrip_wide, wavedrom_span, render_injective         (Proofs/C15Render)
-    init_inv, init_raises_iff, capture_model, clear_resets, alias_share, no_raise         (Proofs/C15Capture)
+    init_inv, init_raises_iff, init_by_identity, capture_model, clear_resets, alias_share, no_raise  (Proofs/C15Capture)
     clockDrivers_val, clkCycle_recorder, capture_gated, capture_clk                       (Proofs/C15Net)
     getWavedrom_rows / _decodes / _span / _clk, capture_once_per_cycle, waveform_end_to_end, gated_counterexample (here)
 -/
@@ -279,6 +279,14 @@ example : (exWf.map (fun wf => getDict (Waveform.run wf [Waveform.Op.clear, Wave
 example : decodeWave 8 "x2.2x".toList ["5".toList] = none := by decide
 example : decodeWave 8 "x.2x".toList ["5".toList] = none := by decide
 example : decodeWave 8 "x2x".toList ["5g".toList] = none := by decide
+-- identity, not name: wires 5 and 6 are both called "q" (internal wires of sibling blocks) -> two records;
+-- wire 5 under three different names (itself, a port, a repetition) -> one record
+example : ((init exWidth [] [{ obj := .wire 5, full := "/s1[q]".toList, short := "q".toList },
+                             { obj := .wire 6, full := "/s2[q]".toList, short := "q".toList },
+                             { obj := .port (some 5), full := "/s1/buf[a]".toList, short := "a".toList },
+                             { obj := .wire 5, full := "/s1[q]".toList, short := "q".toList }]).map
+            (fun wf => getDict (Waveform.run wf [Waveform.Op.clock (fun w => w * 2)])))
+    = some [(5, [10]), (6, [12])] := by decide
 -- the constructor raises on an empty list / unconnected port
 example : init exWidth [] [] = none := by decide
 example : init exWidth [] [{ obj := .port none }] = none := by decide
